@@ -107,6 +107,10 @@ impl Prop for C17 {
         None
     }
 
+    fn view(c: &ProgCase) -> serde_json::Value {
+        prog_view(c)
+    }
+
     fn shrink(c: &ProgCase) -> Vec<ProgCase> {
         shrink_prog_case(c)
     }
